@@ -206,6 +206,10 @@ def wire(B, recs_r, recs_o, a1, a2):
 
 def call(ub, a1, a2):
     from diffcalc.util import DiffcalcException
+    # integer addresses may be Python ints or numpy integers
+    npint = lambda a, t: (t(a) if isinstance(a, int) and not isinstance(a, bool) else a)
+    if isinstance(a1, int) and a1 % 3 == 2: a1 = npint(a1, np.int64)
+    if isinstance(a2, int) and a2 % 2 == 0: a2 = npint(a2, np.int32)
     with quiet():
         try:
             if a1 is None and a2 is None:
